@@ -73,6 +73,34 @@ _w(
 )
 
 
+_VC = "pyoda_time/text/_value_cursor.py"
+_SPB = "pyoda_time/text/patterns/_stepped_pattern_builder.py"
+_PRS = "pyoda_time/text/_parse_result.py"
+_LTP = "pyoda_time/text/_local_time_pattern_parser.py"
+_OPP = "pyoda_time/text/_offset_pattern_parser.py"
+
+_w(
+    "C08",
+    W("non-ascii-digit", [(_VC, '            if not digit.isdigit() or not "0" <= digit <= "9":', "            if not digit.isdigit():")], ("R08.1",),
+      "int() of a non-ASCII digit such as a superscript two raises ValueError inside parse"),
+    W("cursor-bound-dropped", [(_VC, "        max_index = min(self.length, max_index)\n", "")], ("R08.1",),
+      "digit loop reads past the end of the text: IndexError inside parse"),
+    W("raise-in-parse-action", [(_SPB, "                return ParseResult[TResult]._field_value_out_of_range(cursor, value, pattern_char, type_)", "                raise ValueError(f\"{pattern_char} out of range: {value}\")")], ("R08.1",),
+      "a failure result replaced by an exception in the shared parse-value action"),
+    W("handler-lookup-keyerror", [(_SPB, "            if handler := character_handlers.get(pattern_cursor.current):", "            if handler := character_handlers[pattern_cursor.current]:")], ("R08.2",),
+      "pattern creation raises KeyError for any character without a handler"),
+    W("message-arity", [(_PRS, "FIELD_VALUE_OUT_OF_RANGE, value, field, type_.__name__)\n\n    @classmethod\n    def _field_value_out_of_range_post_parse", "FIELD_VALUE_OUT_OF_RANGE, value, field)\n\n    @classmethod\n    def _field_value_out_of_range_post_parse")], ("R08.3",),
+      "a three-placeholder message built with two arguments: IndexError while the failure result is built"),
+    W("offset-guard-removed", [(_OPP, "        if seconds < Offset.min_value.seconds or seconds > Offset.max_value.seconds:", "        if False:")], ("R08.4",),
+      "the defect D13 re-introduced: +19:00 raises out of parse"),
+    W("hour-24-in-time-pattern", [(_LTP, "            2, _PatternFields.HOURS_24, 0, 23, hours_24_getter, hours_24_setter, LocalTime", "            2, _PatternFields.HOURS_24, 0, 24, hours_24_getter, hours_24_setter, LocalTime")], ("R08.4",),
+      "LocalTime 'HH' accepts 24: the trusted constructor builds an invalid LocalTime"),
+    W("value-read-before-success-test", [(_SPB, "            if not result.success:\n                return result.convert_error(type_)\n            parse_action(bucket, result.value)", "            parse_action(bucket, result.value)\n            if not result.success:\n                return result.convert_error(type_)")], ("R08.5",),
+      "a failed embedded parse raises its error out of the outer parse"),
+    W("twin-rename-local", [(_VC, "        max_index = local_index + maximum_digits\n        max_index = min(self.length, max_index)\n        while local_index < max_index:\n            digit = self.value[local_index]\n            if not digit.isdigit() or not \"0\" <= digit <= \"9\":", "        limit = local_index + maximum_digits\n        limit = min(self.length, limit)\n        while local_index < limit:\n            digit = self.value[local_index]\n            if not digit.isdigit() or not \"0\" <= digit <= \"9\":")], (),
+      "behaviour-preserving rename in _parse_digits"),
+)
+
 # ------------------------------------------------------------------------------------------- engine
 
 
